@@ -13,6 +13,7 @@ import (
 	"sort"
 	"strings"
 	"sync"
+	"sync/atomic"
 	"testing"
 	"testing/cryptotest"
 	"testing/synctest"
@@ -58,11 +59,13 @@ type Run struct {
 	Info    map[string]interface{} // scenario parameters (sample output)
 	NonTriv bool
 
-	cleanup  []func()
-	hook     *spinHook
-	MaxSteps int
-	peers    []*Peer
-	simEnd   time.Duration
+	cleanup      []func()
+	hook         *spinHook
+	bubble       string // id of this run's synctest bubble
+	bodyDone     atomic.Bool
+	MaxSteps     int
+	peers        []*Peer
+	simEnd       time.Duration
 	frozenDigest string
 	stallArmedAt map[int]int64 // link id -> bytes delivered on the reverse link when the stall was armed
 }
@@ -226,9 +229,9 @@ func (r *Run) OnCleanup(f func()) { r.cleanup = append(r.cleanup, f) }
 type spinHook struct {
 	r       *Run
 	mu      sync.Mutex
-	last    string
-	count   int
+	counts  map[string]int
 	phase   int
+	at      int64
 	Limit   int
 	Capture bool
 	lines   []string
@@ -236,24 +239,33 @@ type spinHook struct {
 
 func (h *spinHook) Levels() []log.Level { return log.AllLevels }
 
+// Fire counts entries per message text within one instant: the same driver
+// step and the same simulated time. Simulated time only advances when every
+// goroutine of the bubble is blocked, so Limit entries of one text at one
+// instant come from code that loops without ever blocking. Counting per text
+// (not consecutive entries) matters: two spinning goroutines interleave.
 func (h *spinHook) Fire(e *log.Entry) error {
 	h.mu.Lock()
 	msg := e.Message
 	if h.Capture && len(h.lines) < 2000 {
 		h.lines = append(h.lines, e.Level.String()+": "+msg)
 	}
-	ph := h.r.Steps
-	if msg == h.last && ph == h.phase {
-		h.count++
-	} else {
-		h.last, h.count, h.phase = msg, 1, ph
+	ph, at := h.r.Steps, time.Now().UnixNano()
+	if ph != h.phase || at != h.at || h.counts == nil {
+		h.phase, h.at, h.counts = ph, at, map[string]int{}
 	}
-	spin := h.count >= h.Limit
+	h.counts[msg]++
+	spin := h.counts[msg] >= h.Limit
 	if spin {
-		h.count = 0
+		h.counts[msg] = 0
 	}
 	h.mu.Unlock()
 	if spin {
+		// a goroutine left over from an earlier run's bubble (it started to spin
+		// during that run's teardown) is ended without blaming this run
+		if b := ownBubble(); b != "" && h.r.bubble != "" && b != h.r.bubble {
+			runtime.Goexit()
+		}
 		site := callSite()
 		h.r.mu.Lock()
 		h.r.Spins = append(h.r.Spins, fmt.Sprintf("%q at %s", truncate(msg, 120), site))
@@ -263,6 +275,12 @@ func (h *spinHook) Fire(e *log.Entry) error {
 		runtime.Goexit()
 	}
 	return nil
+}
+
+func ownBubble() string {
+	buf := make([]byte, 256)
+	buf = buf[:runtime.Stack(buf, false)]
+	return bubbleOf(string(buf))
 }
 
 func truncate(s string, n int) string {
@@ -339,6 +357,7 @@ func Execute(t *testing.T, r *Run, body func(r *Run)) (leaked int, hung bool) {
 		}()
 		synctest.Test(t, func(t *testing.T) {
 			r.Start = time.Now()
+			r.bubble = ownBubble()
 			n := simrt.NewNetwork()
 			simrt.Cur = n
 			r.Net = n
@@ -365,15 +384,35 @@ func Execute(t *testing.T, r *Run, body func(r *Run)) (leaked int, hung bool) {
 					synctest.Wait()
 				}()
 				body(r)
+				r.bodyDone.Store(true)
 				r.simEnd = time.Since(r.Start)
 				r.freezeDigest()
 			}()
 		})
 	}()
-	select {
-	case <-done:
-	case <-realAfter(60 * time.Second):
-		hung = true
+	// The bubble normally ends within milliseconds. Code under test that loops
+	// without blocking once its network is gone (after the verdict, during
+	// teardown) keeps the bubble alive: give up after a minute of real time, or
+	// sooner when it is also eating memory (the collector is off during a run).
+	limit := realAfter(60 * time.Second)
+	tick := time.NewTicker(250 * time.Millisecond)
+	defer tick.Stop()
+wait:
+	for {
+		select {
+		case <-done:
+			break wait
+		case <-limit:
+			hung = true
+			break wait
+		case <-tick.C:
+			var ms runtime.MemStats
+			runtime.ReadMemStats(&ms)
+			if ms.HeapAlloc > 2<<30 && r.bodyDone.Load() {
+				hung = true
+				break wait
+			}
+		}
 	}
 	simrt.Cur = nil
 	return leaked, hung
